@@ -28,20 +28,24 @@ type Step struct {
 }
 
 type Scenario struct {
-	Name     string
-	Gen      int
-	BufCap   int
-	ErrFull  bool
-	Limiter  bool
-	Flush    int64
-	CapInt   int64
-	Audit    int64
-	MaxOp    int64
-	Pause    int64
-	MaxConc  int
-	Watchers []WCfg
-	Steps    []Step
-	Tail     int64 // ns to keep the bubble alive after the last step (wind-down)
+	Name    string
+	Gen     int
+	BufCap  int
+	ErrFull bool
+	Limiter bool
+	Flush   int64
+	CapInt  int64
+	Audit   int64
+	MaxOp   int64
+	Pause   int64
+	MaxConc int
+	// a listener that takes its time: the loop is kept busy this long (ns) inside the flush-done event (v2) /
+	// inside the audit-skip, audit-pass and audit-fail events
+	BusyFD    int64
+	BusyAudit int64
+	Watchers  []WCfg
+	Steps     []Step
+	Tail      int64 // ns to keep the bubble alive after the last step (wind-down)
 }
 
 func b2i(b bool) int64 {
@@ -53,8 +57,8 @@ func b2i(b bool) int64 {
 
 func (s *Scenario) WriteHeader(w io.Writer) {
 	fmt.Fprintf(w, "name %s\n", s.Name)
-	fmt.Fprintf(w, "cfg %d %d %d %d %d %d %d %d %d %d\n", s.Gen, s.BufCap, b2i(s.ErrFull), b2i(s.Limiter),
-		s.Flush, s.CapInt, s.Audit, s.MaxOp, s.Pause, s.MaxConc)
+	fmt.Fprintf(w, "cfg %d %d %d %d %d %d %d %d %d %d %d %d\n", s.Gen, s.BufCap, b2i(s.ErrFull), b2i(s.Limiter),
+		s.Flush, s.CapInt, s.Audit, s.MaxOp, s.Pause, s.MaxConc, s.BusyFD, s.BusyAudit)
 	for _, wc := range s.Watchers {
 		fmt.Fprintf(w, "watcher %d %d %d\n", wc.MaxBatch, wc.MaxAttempts, wc.MaxOp)
 	}
@@ -108,6 +112,10 @@ func ReadScenario(path string) (*Scenario, error) {
 			sc.MaxOp = atoi(fs[8])
 			sc.Pause = atoi(fs[9])
 			sc.MaxConc = int(atoi(fs[10]))
+			if len(fs) > 12 {
+				sc.BusyFD = atoi(fs[11])
+				sc.BusyAudit = atoi(fs[12])
+			}
 		case "watcher":
 			sc.Watchers = append(sc.Watchers, WCfg{uint32(atoi(fs[1])), uint32(atoi(fs[2])), atoi(fs[3])})
 		case "step":
